@@ -159,7 +159,9 @@ fn field_access(
     }
 
     let mut pushed = 0;
-    for entity_name in &entity_name.names {
+    // Constraints are unified in the order they are pushed: visit the members of a union in a
+    // fixed order, not in HashSet order, or the verdict varies from run to run.
+    for entity_name in entity_name.names.iter().sorted() {
         let field = ctx
             .class(entity_name, accessed.pos)
             .map_err(|errs| access_class_cause(&errs, other, accessed, entity_name, msg))?
@@ -193,7 +195,7 @@ fn function_access(
     }
 
     let mut pushed = 0;
-    for entity_name in &entity_name.names {
+    for entity_name in entity_name.names.iter().sorted() {
         let class = ctx
             .class(entity_name, accessed.pos)
             .map_err(|errs| access_class_cause(&errs, other, accessed, entity_name, msg))?;
